@@ -65,6 +65,6 @@ func genC19(m *M, nPoints, nScalars int) {
 func init() {
 	gens["C19"] = func(m *M, pick func(q, t int) int, shards int) {
 		m.perFile = 1 // one point per trace file
-		genC19(m, pick(2, 6), pick(12, 300))
+		genC19(m, pick(2, 8), pick(12, 80))
 	}
 }
